@@ -111,6 +111,10 @@ STATEMENT_STATUS: Dict[str, str] = {
                             "object) tokenizer + PSStackParser grouping + CMapParser = specified map",
     "tounicode_bytes_assignments": "proved: the same without the U+00A0 hypothesis (sequence of assignments)",
     "stackparser_groups_objects": "proved: PSStackParser grouping inverts the flattening of objects (flat arrays) into tokens",
+    "tounicode_text_identity_partial": "partial: text of a shown string = ToUnicode text of its codes for the identity "
+                                       "CMaps only (CID = code); table CMaps excluded (open finding tounicode-keyed-by-cid)",
+    "tounicode_keyed_by_cid_cex": "proved counter-example (open finding tounicode-keyed-by-cid): code 82A2 -> CID 845, "
+                                  "ToUnicode <82A2> <3044> gives no text",
     "future work": "utf16 round trip utf16Ignore (utf16Encode cps) = cps; theorems over the Lean model of "
                    "TrueTypeFont.create_unicode_map (formats 0/2/4 are modelled and tie-checked incl. damaged files, "
                    "and checked against independently built tables on the implementation, but no theorem)",
@@ -2445,7 +2449,40 @@ def check_cidsec(ctx: C.Ctx, b: "Batch", secs, origin="gen") -> None:
                            {"group": "cidsec", "exc": i2[2:] if i2.startswith("E ") else None}))
 
 
+def tuni_case(ctx: C.Ctx, b: "Batch", toks, cids) -> None:
+    """PDFCIDFont.to_unichr on a font whose ToUnicode stream holds these tokens (model op `tuni`)."""
+    from pdfminer.pdffont import PDFCIDFont, PDFUnicodeNotDefined
+    from pdfminer.pdftypes import PDFStream
+    from pdfminer.psparser import LIT
+    data = toks_stream(toks)
+    font, e = call(lambda: PDFCIDFont(None, {
+        "Type": LIT("Font"), "Subtype": LIT("CIDFontType2"), "BaseFont": LIT("X"),
+        "CIDSystemInfo": {"Registry": b"Adobe", "Ordering": b"Japan1", "Supplement": 0},
+        "Encoding": LIT("Identity-H"), "FontDescriptor": {}, "ToUnicode": PDFStream({}, data)}))
+    for cid in cids:
+        if e is not None:
+            out = exc_line(e)
+        else:
+            try:
+                u = font.to_unichr(cid)
+                out = "U " + (".".join("%x" % ord(ch) for ch in u) if u else "-")
+            except PDFUnicodeNotDefined:
+                out = "U undefined"
+        inp = {"group": "tuni", "cid": cid, "tokens": [tok_word(t) for t in toks]}
+        ctx.case(("tuni", cid, tuple(inp["tokens"])), out not in ("U undefined",), branch="tuni:" + out[:3].strip())
+        b.tie("to_unichr.model", "tuni %d %s" % (cid, " ".join(tok_word(t) for t in toks)), out, inp)
+
+
 def run_cidsec(ctx: C.Ctx) -> None:
+    rng0 = ctx.rng
+    b0 = Batch(ctx)
+    for _ in range(ctx.n(80, 3000)):
+        secs = gen_sections(rng0, wild=False)
+        m, _flags = spec_tounicode(secs)
+        keys = sorted(m)
+        cids = [rng0.choice(keys) for _ in range(2) if keys] + [rng0.choice([0, 1, 65, 0x3042, 70000])]
+        tuni_case(ctx, b0, render_sections(secs), [c for c in cids if c >= 0])
+    b0.flush()
     rng = ctx.rng
     b = Batch(ctx)
     for _ in range(ctx.n(200, 8000)):
